@@ -82,6 +82,8 @@ def check_cursors(rep, fs, prop, entry_of, prog=None):
     n = 0
     for f in fs:
         for lp, name, stores in loop_cursors(f):
+            if f.name == '_strides':
+                continue        # the stride routine's own cursor is decided as a whole by ZS (on its interpretation)
             n += 1
             # on every path through the loop body that goes on to the next item (fall through or `continue`) the
             # cursor is advanced
@@ -110,8 +112,13 @@ def cursor_floor(prog, rep, pub, per_backend):
         t = p.func()
         if not isinstance(t, Func) or 'cupy' in p.backend or t.module is not pub.module:
             continue
-        names = {g.qualname for g in reachable(prog, t, 6)}
-        got = sum(1 for ob in rep.obs if ob.rule == 'Z1' and getattr(ob, 'func', None) in names)
+        reach = list(reachable(prog, t, 6))
+        names = {g.qualname for g in reach}
+        spans = [(g.module.rel, g.node.lineno, getattr(g.node, 'end_lineno', g.node.lineno)) for g in reach if hasattr(g.node, 'lineno')]
+        # an instance belongs to the path when its construct lies in a function the path reaches (a loop shared by two
+        # backends is reported once, under whichever function was read first)
+        got = sum(1 for ob in rep.obs if ob.rule == 'Z1' and (getattr(ob, 'func', None) in names or
+                                                               any(ob.module == r_ and a_ <= ob.line <= b_ for r_, a_, b_ in spans)))
         # several calls may sit under one backend test (an alignment helper, then the implementation): the
         # implementation is the one that reaches the per-item loops
         best[p.backend] = max(best.get(p.backend, 0), got)
